@@ -1,6 +1,6 @@
 (* C12 — Receive Maximum flow control.  Statements only; proofs in Conn/IdsQuota.v.
    Nothing else may be added to this file. *)
-From MQ Require Import Base.Prelude Conn.Types Conn.ConnRecord Conn.Step Corr.ConnTrace Conn.IdsQuota Conn.Run Conn.Own Conn.OwnStep Conn.Witness Conn.PairQos Conn.PairQos5 Conn.PairSeq Conn.PairSeq5 Conn.PairConc Conn.PairConc5 Conn.PairBi Conn.PairBi5 Conn.PairManualSeq5 Conn.OwnFrame Conn.PairSeqMixed5.
+From MQ Require Import Base.Prelude Conn.Types Conn.ConnRecord Conn.Step Corr.ConnTrace Conn.IdsQuota Conn.Run Conn.Own Conn.OwnStep Conn.Witness Conn.PairQos Conn.PairQos5 Conn.PairSeq Conn.PairSeq5 Conn.PairConc Conn.PairConc5 Conn.PairBi Conn.PairBi5 Conn.PairManualSeq5 Conn.OwnFrame Conn.PairSeqMixed5 Conn.PairSeqMixed2 Conn.PairSeqMixed25.
 
 (* the reported vacancy is M minus the count, saturating at zero: it never wraps or panics, for every
    M and every count *)
@@ -63,6 +63,18 @@ Theorem C12_vacancy_returns_after_mixed_sequence : forall gs gr ps cs cr,
   end.
 Proof. exact run_mixed5_ok. Qed.
 Print Assumptions C12_vacancy_returns_after_mixed_sequence.
+
+(* ... and with either side publishing each item: all FOUR accounts (each side's send count, each side's outstanding inbound
+   set) are at zero again after every exchange of the run (pair_inv52 = pair_inv5 in both directions; Conn/PairSeqMixed25.v) *)
+Theorem C12_four_accounts_return_after_two_way_mixed_sequence : forall gA gB l a b,
+  pair_inv52 gA gB a b -> Forall (fun i => v5_any (item_pkt i)) l ->
+  match run_mixed52 gA gB a b l with
+  | Done2 a' b' dB dA => dB = fromA l /\ dA = fromB l /\ pair_inv52 gA gB a' b'
+  | AppPre2 => True
+  | Fail2 => False
+  end.
+Proof. exact run_mixed52_ok. Qed.
+Print Assumptions C12_four_accounts_return_after_two_way_mixed_sequence.
 
 (* between two library endpoints the counter IS the number of incomplete exchanges and the quota is never exceeded: in every
    state of every schedule of publications and deliveries (several exchanges in flight, v5.0, automatic responses, intact
